@@ -429,13 +429,8 @@ theorem buildSegment_clean (s : Session) (data : List Nat) (off : Nat) (hoff : o
       intro h; simp [h] at hne
     split
     · omega
-    · have hl := hdr_len_le (if off = 0 then
-          { seqNum := s.send.nextSeq, ack := s.recv.pendingAck.isSome, ackNum := s.recv.pendingAck.getD 0,
-            beg := true, msgLen := data.length % 65536 }
-        else { seqNum := s.send.nextSeq, ack := s.recv.pendingAck.isSome, ackNum := s.recv.pendingAck.getD 0,
-               cont := true })
-      have := hmtu hne'
-      rw [csub_ok (by omega)]
+    · have := hmtu hne'
+      rw [csub_ok (Nat.le_trans (hdr_len_le _) (by omega : 6 ≤ s.mtu))]
       simp only [Clean, List.length_take, List.length_drop]
       omega
   · simp only [Clean, List.length_nil]; omega
@@ -717,7 +712,7 @@ theorem accept_refines {r : RecvWindow} {rs : Spec.Reasm} {n : Nat} {h : Hdr} {p
         · rw [ecnt, hrep.cnt]; have := hrep.nLe; omega
         · rw [erem]; exact hr0
         · rw [ebuf, hb, drop_snoc _ _ _ hrep.nLe, flat_append, flat_single]
-          simp only [if_true, recBytes, List.length_append, hrp]
+          simp only [recBytes, List.length_append, hrp]
           simp [hpl]
         · intro m hm
           rcases List.mem_append.mp hm with hm | hm
